@@ -233,6 +233,17 @@ A_RxnISub(C, r, q) ==
   IF r \notin C.rxns \/ q \notin C.rxns THEN FailLoose(C, "skip")
   ELSE Ok([C EXCEPT !.S[r] = [m \in MetU |-> C.S[r][m] - C.S[q][m]]])
 
+\* reaction.build_reaction_from_string("2 m1 + m2 --> m3"): the stoichiometry is replaced by the one written,
+\* the arrow decides the bounds from the Configuration defaults; only metabolites of the model are in scope
+\* (unknown ids would be created without a compartment)
+A_BuildFromString(C, r, d, arrow, lo, hi) ==
+  IF r \notin C.rxns \/ ~({m \in MetU : d[m] # 0} \subseteq C.mets) THEN FailLoose(C, "skip")
+  ELSE Ok([C EXCEPT !.S[r] = d,
+                    !.lb[r] = IF arrow = "fwd" THEN 0 ELSE lo,
+                    !.ub[r] = IF arrow = "rev" THEN 0 ELSE hi])
+\* gene.functional = b : only the flag (no bounds are touched)
+A_SetFunctional(C, g, b) == IF g \in C.genes THEN Ok([C EXCEPT !.func[g] = b]) ELSE FailLoose(C, "skip")
+
 \* bounds
 A_SetBounds(C, r, lo, hi) ==
   IF r \notin C.rxns THEN FailLoose(C, "skip")
@@ -444,6 +455,9 @@ ContentOp(op, C) ==
     \* change now; if the removal is undone later by a context exit the object comes back as it then is
     [] op.a = "DetachedSetBounds"  -> IF op.r \in C.rxns \/ op.lo > op.hi THEN FailLoose(C, "skip") ELSE Ok(C)
     \* Reaction.copy / + / - / * return detached objects and leave their operands (and the model) unchanged
+    [] op.a = "BuildFromString"    -> A_BuildFromString(C, op.r, op.d, op.arrow, -1000, 1000)
+    [] op.a = "SetFunctional"      -> A_SetFunctional(C, op.g, op.b)
+    [] op.a = "Repair"             -> Ok(C)
     [] op.a = "RxnArith"           -> IF op.r \in C.rxns /\ op.q \in C.rxns THEN Ok(C) ELSE FailLoose(C, "skip")
     [] op.a \in {"Analyze", "Init"} -> Ok(C)     \* stuttering steps on the content
     [] OTHER                       -> FailLoose(C, "unknown-op")
@@ -453,7 +467,7 @@ ContentActions == {"AddMetabolites", "RemoveMetabolites", "AddReactions", "Remov
                    "SetBounds", "RxnKnockOut", "SetRule", "GeneKnockOut", "KnockOutModelGenes", "RemoveGenes",
                    "RenameGene", "RenameReaction", "RenameMetabolite", "SetObjective", "SetObjCoef", "SetDirection",
                    "SetMedium", "SwitchSolver", "AddUserCons", "AddUserVar", "RemoveUserCons", "RemoveUserVar",
-                   "AddGroup", "RemoveGroup", "Annotate", "Analyze", "RoundTrip", "GetMedium", "Init", "DetachedSetBounds", "RxnArith"}
+                   "AddGroup", "RemoveGroup", "Annotate", "Analyze", "RoundTrip", "GetMedium", "Init", "DetachedSetBounds", "RxnArith", "BuildFromString", "SetFunctional", "Repair"}
 \* operations that the documentation does NOT declare reversible inside `with model:`
 NotContextAware == {"AddGroup", "RemoveGroup", "Annotate", "RenameReaction", "RenameMetabolite", "DetachedSetBounds"}
 
